@@ -14,7 +14,9 @@ import time
 
 VERIF = "/verif"
 REPO = "/repo"
-BUILD = os.path.join(VERIF, ".build")
+# (mutation experiments use a private build directory: cargo judges freshness by mtime, so artifacts built from a patched
+# clone of /repo must never share a target directory with builds of the real tree; see tools/with_patch.sh)
+BUILD = os.environ.get("VERIF_BUILD_DIR", os.path.join(VERIF, ".build"))
 LEAN = os.path.join(VERIF, "lean")
 HARNESS = os.path.join(VERIF, "harness")
 # (mutation experiments redirect these so that the committed evidence is not overwritten; see tools/with_patch.sh)
